@@ -12,7 +12,7 @@ DEFAULT = dict(
     partial_term=True, chords=True, acc=True, sigs=True, grace=True, rest_in_chord=True, sep_chars=False,
     signatures=True, supported_clefs_only=False, others=True, force_clef=False, max_body=10, max_sub=3, max_width=7,
     barlines=True, final_barline=True, numbered_bars=False, null_weight=2, interp_rows=True, rule_iv=True,
-    sig_in_split=False, adjacent_joins=True, ext_sigs=False,
+    sig_in_split=False, adjacent_joins=True, ext_sigs=False, force_kern=True, hidden_bars=False,
 )
 
 PROFILES = {
@@ -58,7 +58,7 @@ def _types(draw, P):
             out.append(KERN)
         else:
             out.append(draw(st.sampled_from(pool)))
-    if KERN in pool and KERN not in out:
+    if KERN in pool and KERN not in out and P.get('force_kern', True):
         out[draw(st.integers(0, n - 1))] = KERN
     return out
 
@@ -179,7 +179,7 @@ def _event(draw, P, paths, rows, state):
         rows.append(_row([_data_cell(draw, P, paths.typ(k)) for k in range(n)]))
     elif x < 11 and P['barlines']:
         state['bars'] += 1
-        b = draw(G.barlines(number=state['bars'] if P['numbered_bars'] else None))
+        b = draw(G.barlines(number=state['bars'] if P['numbered_bars'] else None, hidden=P['hidden_bars']))
         rows.append(_row([dict(b) for _ in range(n)]))
     elif x < 13 and P['interp_rows']:
         rows.append(_row([_interp_cell(draw, P, paths.typ(k)) for k in range(n)]))
@@ -255,7 +255,7 @@ def documents(draw, P):
 MEASURE_DEFAULT = dict(
     max_spines=3, others=False, other_types=['**text', '**dynam', '**harm'], splits=True, rejoin_before_bar=True,
     sig_changes=False, same_sig_kinds=True, max_measures=6, chords=True, comments=True, tandems=True,
-    split_across_bar=False,
+    split_across_bar=False, hidden_bars=True,
 )
 
 
@@ -338,7 +338,7 @@ def measure_documents(draw, MP):
     open_split = False
     for m in range(nm):
         barno += 1
-        b = draw(G.barlines(number=barno))
+        b = draw(G.barlines(number=barno, hidden=MP['hidden_bars']))
         rows.append(_row([dict(b) for _ in range(width())]))
         for _ in range(draw(st.integers(0, 3))):
             x = draw(st.integers(0, 11))
